@@ -231,6 +231,7 @@ func runC17(e *Engine, r *Report) {
 	ruleConfigChangeClearsPending(e, r)
 	ruleSendQueueWorkerCleanup(e, r)
 	rulePoisonBlocking(e, r)
+	ruleHintVoting(e, r)
 }
 
 // c17Tables: node.tick advances every table clock on every path; gc reachable.
